@@ -32,7 +32,7 @@ def effdim(cov):
     eigval = np.linalg.eigvals(cov)
     if (lowest_eigval := np.min(eigval)) <= -np.max(cov.shape) * np.finfo(
         cov.dtype
-    ).eps:
+    ).eps * max(1.0, np.max(np.abs(eigval))):
         raise np.linalg.LinAlgError(
             f"Matrix is not positive definite."
             f"Lowest eigenvalue {lowest_eigval} is "
